@@ -73,9 +73,14 @@ def runC16 (c : Case) : Verdict :=
     let encStatuses := (gs.drop 1).take 3
     let wrong := if hasBlankLine text then false
       else encStatuses.any fun s => (s == "ok") == must
+    -- the plain-text reader (position 0) agrees with the others on everything but the alphabet, which it does not check
+    let mustPlain := mustRejectPlain text
+    let wrongPlain := if hasBlankLine text then false else ((gs.headD "") == "ok") == mustPlain
     { agree := gs == ms
       spec := if !crash.isEmpty then "fail:" ++ joinWith "," (crash.map fun (n, s) => n ++ s)
-              else if wrong then (if must then "fail:invalid-input-accepted" else "fail:valid-input-rejected") else "ok"
+              else if wrong then (if must then "fail:invalid-input-accepted" else "fail:valid-input-rejected")
+              else if wrongPlain then (if mustPlain then "fail:invalid-input-accepted-by-ReadAlignment" else "fail:valid-input-rejected-by-ReadAlignment")
+              else "ok"
       model := joinWith FS ms }
 
 end Gofasta.Driver
